@@ -28,7 +28,12 @@ pub async fn get_request_addr(stream: &mut TcpStream) -> anyhow::Result<Address>
         match next {
             Proxy::Http(address) => Ok(address),
             Proxy::Https(address) => {
-                let _ = stream.read(&mut [0; 1024]).await?;
+                // consume exactly the CONNECT request, up to and including the blank line that ends its header block
+                let mut tail = [0u8; 4];
+                while tail != *b"\r\n\r\n" {
+                    tail.rotate_left(1);
+                    tail[3] = stream.read_u8().await?;
+                }
                 stream.write_all(b"HTTP/1.1 200 Connection established\r\n\r\n").await?;
                 Ok(address)
             }
